@@ -25,14 +25,14 @@ var codecPairs = map[string]string{
 
 // library inverse pairs used by the leaf codecs, with the argument positions that must agree
 var libInverse = map[string]string{
-	"strconv.FormatUint":                        "strconv.ParseUint",
-	"strings.Join":                              "strings.Split",
-	"(github.com/ethereum/go-ethereum/common.Address).Hex":                "github.com/ethereum/go-ethereum/common.HexToAddress",
-	"github.com/ethereum/go-ethereum/common/hexutil.Encode":                "github.com/ethereum/go-ethereum/common/hexutil.Decode",
-	"(*encoding/base64.Encoding).EncodeToString": "(*encoding/base64.Encoding).DecodeString",
-	"encoding/hex.EncodeToString":                 "encoding/hex.DecodeString",
-	"(*github.com/shutter-network/shutter/shlib/shcrypto.Gammas).Marshal":  "(*github.com/shutter-network/shutter/shlib/shcrypto.Gammas).Unmarshal",
-	"github.com/ethereum/go-ethereum/crypto.FromECDSAPub":                  "github.com/ethereum/go-ethereum/crypto.UnmarshalPubkey",
+	"strconv.FormatUint": "strconv.ParseUint",
+	"strings.Join":       "strings.Split",
+	"(github.com/ethereum/go-ethereum/common.Address).Hex":                  "github.com/ethereum/go-ethereum/common.HexToAddress",
+	"github.com/ethereum/go-ethereum/common/hexutil.Encode":                 "github.com/ethereum/go-ethereum/common/hexutil.Decode",
+	"(*encoding/base64.Encoding).EncodeToString":                            "(*encoding/base64.Encoding).DecodeString",
+	"encoding/hex.EncodeToString":                                           "encoding/hex.DecodeString",
+	"(*github.com/shutter-network/shutter/shlib/shcrypto.Gammas).Marshal":   "(*github.com/shutter-network/shutter/shlib/shcrypto.Gammas).Unmarshal",
+	"github.com/ethereum/go-ethereum/crypto.FromECDSAPub":                   "github.com/ethereum/go-ethereum/crypto.UnmarshalPubkey",
 	"(*github.com/ethereum/go-ethereum/crypto/ecies.PublicKey).ExportECDSA": "github.com/ethereum/go-ethereum/crypto/ecies.ImportECDSAPublic",
 }
 
